@@ -216,7 +216,7 @@ def search_collect_quantity(seed=0, budget=6000, depth=2):
 
 def nth_tree(kind, seed, n, depth=2):
     rng = random.Random(seed)
-    leaves = {"collect_quantity": leaves_quantity}[kind]()
+    leaves = {"collect_quantity": leaves_quantity, "collect_expression": leaves_expression}[kind]()
     for i, t in enumerate(trees(leaves, depth, rng, n + 1), 1):
         if i == n:
             return t
@@ -226,7 +226,7 @@ def nth_tree(kind, seed, n, depth=2):
 def replay_tree(kind, seed, n):
     """re-generate the n-th tree of the deterministic enumeration and assert the contract on the real function"""
     t = nth_tree(kind, seed, n)
-    why = {"collect_quantity": check_collect_quantity}[kind](t)
+    why = {"collect_quantity": check_collect_quantity, "collect_expression": check_collect_expression}[kind](t)
     print("input:", t, "| srepr:", sp.srepr(t)[:300])
     assert why is None, f"{kind}({t}): {why}"
     print("contract holds on this input")
@@ -239,7 +239,7 @@ def concretizer(kind, seed=0, budget=8000):
     """concretize(model, obligation_name) for pyvc: find a real input violating the executable contract (cached per run)"""
     def conc(model, name):
         if kind not in _search_cache:
-            fn = {"collect_quantity": search_collect_quantity, "gate": search_gate, "convert": search_convert, "approx": search_approx}[kind]
+            fn = {"collect_quantity": search_collect_quantity, "gate": search_gate, "convert": search_convert, "approx": search_approx, "collect_expression": search_collect_expression}[kind]
             _search_cache[kind] = fn(seed, budget)
         t, why, n = _search_cache[kind]
         if t is None:
@@ -564,7 +564,8 @@ def generation_fallback(report, kind, unit, err, seed=0, budget=8000):
     with that input (bounded search; a clean search decides nothing)."""
     from ..core import Ob, REFUTED
     report.fault(f"VC generation failed: {err}")
-    fn = {"collect_quantity": search_collect_quantity, "gate": search_gate, "convert": search_convert, "approx": search_approx}[kind]
+    fn = {"collect_quantity": search_collect_quantity, "gate": search_gate, "convert": search_convert, "approx": search_approx,
+          "collect_expression": search_collect_expression}[kind]
     t, why, n = fn(seed, budget)
     if t is None:
         report.add_bounded(f"fallback search of the executable {kind} contract after a generation failure", f"{n} enumerated real inputs", n, True)
